@@ -18,7 +18,7 @@ RULE = (
     "situation class x set of caches warmed; non-trivial = repeated target/argument or any warm cache."
 )
 SHARDS = {"quick": 16, "thorough": 16}
-TIMEOUT = {"quick": 240, "thorough": 3000}
+TIMEOUT = {"quick": 300, "thorough": 5400}
 MIN_EVALS = {"quick": 6000, "thorough": 150000}
 CASES = {"quick": 130, "thorough": 5000}
 STEPS = {"quick": 10, "thorough": 24}
